@@ -73,14 +73,19 @@ type filterCfg struct {
 	ClientKind string
 	K          int
 	Extra      string // additionally registered kinds that must NOT be selected
+	Plain      bool   // servant registered through the context-less interface; one caller at a time
+	Late       bool   // only the first filter of each list is registered before the first calls, the rest after them
 }
 
 func serverToken(req *requestf.RequestPacket) string { return req.Context[vworld.TokenKey] }
 func clientToken(msg *tars.Message) string           { return msg.Req.Context[vworld.TokenKey] }
 
 // install registers pass-through filters of the configuration on the app and returns the list of
-// filter ids expected to see every call, in the order of their "enter" events.
-func install(app *tars.VerifApp, cfg filterCfg, log *filterLog) (expectEnter []string) {
+// filter ids expected to see every call, in the order of their "enter" events.  Only the filters
+// with index >= from are registered (the others were registered by an earlier call: filters
+// registered after the application's first calls must see the following calls too); the returned
+// list always covers all of them.
+func install(app *tars.VerifApp, cfg filterCfg, log *filterLog, from int) (expectEnter []string) {
 	mkSrvSingle := func(id string) tars.ServerFilter {
 		return func(ctx context.Context, d tars.Dispatch, f interface{}, req *requestf.RequestPacket, resp *requestf.ResponsePacket, wc bool) error {
 			log.add(serverToken(req), id, "enter")
@@ -137,13 +142,17 @@ func install(app *tars.VerifApp, cfg filterCfg, log *filterLog) (expectEnter []s
 	case "middleware":
 		for i := 0; i < cfg.K; i++ {
 			id := fmt.Sprintf("c-mw%d", i)
-			app.UseClientFilterMiddleware(mkCliMW(id))
+			if i >= from {
+				app.UseClientFilterMiddleware(mkCliMW(id))
+			}
 			expectEnter = append(expectEnter, id)
 		}
 	case "prepost":
 		for i := 0; i < cfg.K; i++ {
 			id := fmt.Sprintf("c-pre%d", i)
-			app.RegisterPreClientFilter(mkCliObserve(id))
+			if i >= from {
+				app.RegisterPreClientFilter(mkCliObserve(id))
+			}
 			expectEnter = append(expectEnter, id)
 		}
 	}
@@ -154,25 +163,33 @@ func install(app *tars.VerifApp, cfg filterCfg, log *filterLog) (expectEnter []s
 	case "middleware":
 		for i := 0; i < cfg.K; i++ {
 			id := fmt.Sprintf("s-mw%d", i)
-			app.UseServerFilterMiddleware(mkSrvMW(id))
+			if i >= from {
+				app.UseServerFilterMiddleware(mkSrvMW(id))
+			}
 			expectEnter = append(expectEnter, id)
 		}
 	case "prepost":
 		for i := 0; i < cfg.K; i++ {
 			id := fmt.Sprintf("s-pre%d", i)
-			app.RegisterPreServerFilter(mkSrvObserve(id))
+			if i >= from {
+				app.RegisterPreServerFilter(mkSrvObserve(id))
+			}
 			expectEnter = append(expectEnter, id)
 		}
 		for i := 0; i < cfg.K; i++ {
 			id := fmt.Sprintf("s-post%d", i)
-			app.RegisterPostServerFilter(mkSrvObserve(id))
+			if i >= from {
+				app.RegisterPostServerFilter(mkSrvObserve(id))
+			}
 			expectEnter = append(expectEnter, id)
 		}
 	}
 	if cfg.ClientKind == "prepost" {
 		for i := 0; i < cfg.K; i++ {
 			id := fmt.Sprintf("c-post%d", i)
-			app.RegisterPostClientFilter(mkCliObserve(id))
+			if i >= from {
+				app.RegisterPostClientFilter(mkCliObserve(id))
+			}
 			expectEnter = append(expectEnter, id)
 		}
 	}
@@ -195,6 +212,9 @@ var configs = []filterCfg{
 	{Name: "middleware-3", ServerKind: "middleware", ClientKind: "middleware", K: 3},
 	{Name: "server-prepost-only", ServerKind: "prepost", K: 2},
 	{Name: "client-mw-server-single", ServerKind: "single", ClientKind: "middleware", K: 2, Extra: "srv-prepost-under-single,cli-prepost-under-mw"},
+	{Name: "plain-servant", ServerKind: "prepost", ClientKind: "prepost", K: 1, Plain: true},
+	{Name: "late-middleware", ServerKind: "middleware", ClientKind: "middleware", K: 3, Late: true},
+	{Name: "late-prepost", ServerKind: "prepost", ClientKind: "prepost", K: 2, Late: true},
 }
 
 type valueGen struct {
@@ -259,7 +279,7 @@ type callSpec struct {
 func main() {
 	run = vlib.Start("C01")
 	rogger.SetLevel(rogger.OFF)
-	run.SetRule("filter configurations {none, legacy single client+server, pre/post x1 and x3, middleware x1 and x3, server pre/post only, mixed registrations with shadowed kinds} x callers sharing one generated proxy {1,4,32} x calls drawing: function (12 functions covering scalars signed/unsigned, strings, vector<byte>, nested vectors, maps incl. map of vector of struct, structs with optional/default members, enums, many out parameters, none, void, out before in), argument values from 5 generation modes, request context/status maps (absent, empty, unicode, 1000 entries, random), directive (values + response context/status, tars.Error with code, plain error) and proxy form (plain, WithContext, OneWayWithContext). A case is one call; distinct = distinct (configuration, function, form, outcome kind, argument encoding hash).")
+	run.SetRule("filter configurations {none, legacy single client+server, pre/post x1 and x3, middleware x1 and x3, server pre/post only, mixed registrations with shadowed kinds, servant registered through the context-less interface, filters registered after the application's first calls} x callers sharing one generated proxy {1,4,32} x calls drawing: function (12 functions covering scalars signed/unsigned, strings, vector<byte>, nested vectors, maps incl. map of vector of struct, structs with optional/default members, enums, many out parameters, none, void, out before in), argument values from 5 generation modes, request context/status maps (absent, empty, unicode, 1000 entries, random), directive (values + response context/status, tars.Error with code, plain error) and proxy form (plain, WithContext, OneWayWithContext). A case is one call; distinct = distinct (configuration, function, form, outcome kind, argument encoding hash).")
 	run.Assume("error code 0 and empty error messages are outside the domain (code 0 is success on the wire, an empty message is replaced by a synthetic text by design)")
 	run.Assume("pass-through: single/middleware filters call next once and return its result, pre/post filters observe and return nil; with several kinds registered only the selected kind (single > middleware > pre/post) must see the call")
 	u, err := sch.LoadUniverse(resreg.TarsFiles)
@@ -278,20 +298,33 @@ func main() {
 	for ci, cfg := range configs {
 		app := tars.VerifNewApp()
 		flog := &filterLog{}
-		expectEnter := install(app, cfg, flog)
+		var expectEnter []string
+		if cfg.Late {
+			first := cfg
+			first.K = 1
+			expectEnter = install(app, first, flog, 0)
+		} else {
+			expectEnter = install(app, cfg, flog, 0)
+		}
 		conf := netlab.DefaultServerConf("tcp")
 		conf.MaxInvoke = int32([]int{0, 0, 4}[ci%3])
 		var tap *netlab.Tap
-		w, err := vworld.NewWorld(app, conf, fmt.Sprintf("Verif.C01x%d.EchoObj", ci), func(server string) string {
+		w, err := vworld.NewWorldOpt(app, conf, fmt.Sprintf("Verif.C01x%d.EchoObj", ci), func(server string) string {
 			tap = netlab.NewTap(server, run.Thorough() || ci%2 == 1, run.Seed+int64(ci))
 			return tap.Addr
-		})
+		}, cfg.Plain)
 		if err != nil {
 			run.Inconclusive("cannot start world: " + err.Error())
 			continue
 		}
 		w.Servant.Clock = netlab.Tick
 		for _, callers := range []int{1, 4, 32} {
+			if cfg.Late && callers == 4 {
+				expectEnter = install(app, cfg, flog, 1)
+			}
+			if cfg.Plain && callers > 1 {
+				break // the context-less servant is told the token of the one call in flight
+			}
 			n := perCfg / 3 / callers
 			if n < 2 {
 				n = 2
@@ -385,9 +418,15 @@ func oneCall(w *vworld.World, tap *netlab.Tap, cfg filterCfg, expectEnter []stri
 			outParams = append(outParams, p)
 		}
 	}
-	if r.Intn(2) == 0 {
+	if r.Intn(2) == 0 && w.Plain == nil {
 		d.RspContext = strMap(r, 2+r.Intn(4))
 		d.RspStatus = strMap(r, 2+r.Intn(4))
+	}
+	if w.Plain != nil {
+		w.Plain.SetCurrent(token)
+		if form == "oneway" {
+			form = "ctx" // a one-way call returns before the implementation ran: the next token would overtake it
+		}
 	}
 	w.Servant.SetDirective(token, d)
 	defer w.Servant.Forget(token)
@@ -437,11 +476,13 @@ func oneCall(w *vworld.World, tap *netlab.Tap, cfg filterCfg, expectEnter []stri
 			return false
 		}
 	}
-	if !mapsEqual(rec.ReqContext, sentCtx) {
+	if w.Plain != nil {
+		// request context / status are not observable without a context
+	} else if !mapsEqual(rec.ReqContext, sentCtx) {
 		run.Violation("request-context-changed", form, fmt.Sprintf("%s: request context at the implementation has %d entries, caller passed %d", fn.Name, len(rec.ReqContext), len(sentCtx)), wit(nil))
 		return false
 	}
-	if !mapsEqual(rec.ReqStatus, sentSt) {
+	if w.Plain == nil && !mapsEqual(rec.ReqStatus, sentSt) {
 		run.Violation("request-status-changed", form, fmt.Sprintf("%s: request status at the implementation %v, caller passed %v", fn.Name, clipMap(rec.ReqStatus), clipMap(sentSt)), wit(nil))
 		return false
 	}
